@@ -314,16 +314,8 @@ func checkC09(p *Prog, r *Report) {
 		}
 		r.Check(ok && inOnce, "abortIO closes the candidate's conn on every path, once", p.Pos(f.Body.Pos()), "c.conn.Close() inside closeOnce on every path", "a path through abortIO's once-body does not close c.conn (or the close is no longer once-guarded)")
 	}
-	if f := p.Fn("CandidateRelay.close"); r.Anchor("CandidateRelay.close", f != nil) {
-		rk, _ := o.recvKey(f)
-		outs := o.summary(f, []ownBind{{rk + ".onClose", 'f'}})
-		ok := len(outs) > 0
-		for _, x := range outs {
-			if x.Kind != "released" {
-				ok = false
-			}
-		}
-		r.Check(ok, "CandidateRelay.close invokes onClose on every path", p.Pos(f.Body.Pos()), outcomeKinds(outs), "a path through CandidateRelay.close skips onClose: the TURN client and the local socket carrying the allocation are never closed ("+outcomeKinds(outs)+")")
+	checkRelayCloseHook(p, r)
+	if f := p.Fn("CandidateRelay.close"); f != nil {
 		base := len(p.CallsTo(f, false, "ice.candidateBase.close")) == 1
 		r.Check(base, "CandidateRelay.close closes the base candidate", p.Pos(f.Body.Pos()), "candidateBase.close()", "the relayed connection is not closed")
 		cleared := false
@@ -586,4 +578,23 @@ func (p *Prog) waitsUnlessNil(f *Func, site ast.Node) bool {
 		return true
 	})
 	return !escapes
+}
+
+// checkRelayCloseHook: CandidateRelay.close invokes onClose on every path
+// (shared by C09 R9.3 and C08 R8.10).
+func checkRelayCloseHook(p *Prog, r *Report) {
+	f := p.Fn("CandidateRelay.close")
+	if !r.Anchor("CandidateRelay.close", f != nil) {
+		return
+	}
+	o := p.NewOwn()
+	rk, _ := o.recvKey(f)
+	outs := o.summary(f, []ownBind{{rk + ".onClose", 'f'}})
+	ok := len(outs) > 0
+	for _, x := range outs {
+		if x.Kind != "released" {
+			ok = false
+		}
+	}
+	r.Check(ok, "CandidateRelay.close invokes onClose on every path", p.Pos(f.Body.Pos()), outcomeKinds(outs), "a path through CandidateRelay.close skips onClose: the TURN client and the local socket carrying the allocation are never closed ("+outcomeKinds(outs)+")")
 }
